@@ -1516,6 +1516,19 @@ func (f *fnTr) block(items []item, en env, defers []deferred) string {
 			if len(s.Results) == 1 {
 				// return g(...) where g yields the tuple
 				return f.expr(s.Results[0], en, func(v val, en env) string {
+					if call, isCall := s.Results[0].(*ast.CallExpr); isCall && v.t.k == kExt && f.u.outside {
+						// return g(...) where g leaves the translation: the first result is the call's answer,
+						// the others are asked for by position (as in a, b := g(...))
+						base := f.multiBase(call, en)
+						parts := []string{f.coerceResult(v, want.elems[0])}
+						code := ""
+						for i := 1; i < len(want.elems); i++ {
+							t := f.newTmp()
+							code += fmt.Sprintf("%s <- call_ext ext %s [] ;;\n", t, coqString(fmt.Sprintf("%s#%d", base, i)))
+							parts = append(parts, f.coerceResult(val{t, ty{k: kExt}}, want.elems[i]))
+						}
+						return code + f.finishReturn("("+strings.Join(parts, ", ")+")", en, defers)
+					}
 					if v.t.k != kTuple || len(v.t.elems) != len(want.elems) {
 						fail("return %s", exprString(s.Results[0]))
 					}
@@ -2734,6 +2747,9 @@ var fnUnits = []*unit{
 	// Builder.Close are the translated definitions of unit ThermalRaw
 	{name: "WriterLoop", dir: "cmd/thermal-writer", files: []string{"main.go"}, funcs: []string{"handleConn", "writer"},
 		imports: []string{"ThermalRaw"}, skip: map[string]bool{}, byteTok: true, outside: true, chans: true},
+	// thermal-writer's file object (bufferedfile.go): os.Create + a 32 MiB bufio.Writer; Write buffers, Close flushes and closes
+	{name: "BufferedFile", dir: "cmd/thermal-writer", files: []string{"bufferedfile.go"}, structs: []string{"bufferedFile"}, funcs: []string{"newBufferedFile"},
+		skip: map[string]bool{}, opaque: []string{"*os.File", "*bufio.Writer"}, strTok: true, byteTok: true, nilZero: true, outside: true},
 }
 
 // ---------------------------------------------------------------------------------------
